@@ -172,7 +172,7 @@ def tmpl_names(rng):
              "targets": {"t": {"inp": [], "out": ["o.txt"], "hasInput": False},
                          "gen": {"inp": ["g.in"], "out": [], "hasInput": True},
                          "gen-docs": {"inp": ["g.in", "d.in"], "out": ["docs.out"], "hasInput": True}},
-             "focus": ["C18"]}
+             "focus": ["C18", "C08"]}
     return {"files": {"zinoma.yml": T_NOINPUT}, "model": model, "members": ["g.in", "d.in"], "others": ["x.txt"],
             "outs": {"t": ["o.txt"], "gen": [], "gen-docs": ["docs.out"]}, "targets": ["t", "gen", "gen-docs"],
             "inv": {k: dict(entry=".", name=k) for k in ("t", "gen", "gen-docs")},
